@@ -115,7 +115,7 @@ func (d DerivedColumn) Matches(rhs ColumnReference) bool {
 	case lhs.Equals(rhs):
 		// col name and qualifiers are identical
 		fallthrough
-	case d.AsClause == rhs.ColumnName:
+	case d.AsClause == rhs.ColumnName && rhs.Qualifier == "":
 		// derived column alias matches column name
 		fallthrough
 	case lhs.ColumnName == rhs.ColumnName && rhs.Qualifier == "":
